@@ -1252,7 +1252,7 @@ void yyfree(void *p VP_ALLOC_EXTRA) { }
 unsigned char vpi_buf[VP_BS], vpi_src[VP_M > 0 ? VP_M : 1], vpi_chunk[VP_M + 1];
 int vpi_n, vpi_p, vpi_status, vpi_avail, vpi_sc, vpi_bol, vpi_tl;
 int vp_more_req;                 /* the actions call yymore() only if this is set (never): flex emits the yymore machinery */
-static int vp_reads, vp_pos, vp_eofs;
+static int vp_reads, vp_pos, vp_eofs, vp_calls, vp_last_call_pos;
 static struct yy_buffer_state vp_bs;
 static yybuffer vp_stack[1];
 static unsigned char vp_stream[VP_L > 0 ? VP_L : 1];
@@ -1261,6 +1261,7 @@ static int vp_read(char *buf, int max_size) {
   VP_ASSERT(max_size >= 1, "read request asks for at least one byte");
   VP_ASSERT(vpi_status != YY_BUFFER_EOF_PENDING, "no read after end of input was seen");
   int avail = vpi_avail - vp_pos;
+  vp_calls++; vp_last_call_pos = vp_pos;        /* what the scanner had been given when it issued this request */
   if (avail <= 0) { vp_eofs++; return 0; }
   VP_ASSERT(vp_reads <= VP_M, "bounded number of reads");
   int k = vpi_chunk[vp_reads <= VP_M ? vp_reads : VP_M];
@@ -1379,7 +1380,9 @@ int main(void) {
       if (!vp_has_out(&s)) stop = 1;
     }
     int inbuf = vpi_n - vpi_p;
-    VP_ASSERT(stop == 0 || vp_pos <= (need > inbuf ? need - inbuf : 0), "interactive scanner does not read beyond the point where no longer match is possible");
+    /* a request is justified iff the scanner had, when it issued it, fewer bytes than the decisive point needs;
+     * how many bytes the input routine then hands over (up to max_size) is not the scanner's doing */
+    VP_ASSERT(stop == 0 || vp_calls == 0 || inbuf + vp_last_call_pos < need, "interactive scanner does not read beyond the point where no longer match is possible");
   }
 #endif
 #ifdef VP_WITNESS
